@@ -226,6 +226,9 @@ class OdeModel:
         func = inline_generator_loops(func, _stmt_resolver)
         func = scalarise_records(func, lambda name, _pkg=pkg: record_fields(_pkg, name))
         func = inline_stmt_calls(func, _stmt_resolver)
+        # `rhs, jac = self._stage(..)` with the stage put back leaves `rhs, jac = <the stage's locals>`: the same tables under one name
+        from .normalize import coalesce_copies
+        func = coalesce_copies(func)
         # a table kept as a list of rows and flattened once (`rows[r][c] += t` .. `list(chain.from_iterable(rows))`) is the flat table
         from .normalize import flatten_row_tables
         func = flatten_row_tables(func)
